@@ -723,7 +723,13 @@ def _get_rotation_and_strain(
     # for example in the case of uniaxial compression and an identity orientation
     # i.e. grain orientation aligned to the coordinate system).
     if np.all(slip_invariants == 0):
-        return np.zeros((3, 3)), 0.0
+        # No plastic deformation, but the grain still rotates rigidly with the flow.
+        return (
+            _get_orientation_change(
+                orientation, velocity_gradient, np.zeros((3, 3)), 0.0
+            ),
+            0.0,
+        )
     if phase == MineralPhase.olivine:
         slip_indices = np.argsort(np.abs(slip_invariants / crss))
         slip_rates = _get_slip_rates_olivine(
